@@ -9,6 +9,7 @@
 //	for k, v := range <map>      -> iteration over simhook.MapKeys(m) (ordered key types only)
 //	mu.Lock()/Unlock()/RLock()/RUnlock() on sync.Mutex/RWMutex -> simhook.MutexLock(&mu) ...
 //	pool.Get()/Put(x) on sync.Pool -> simhook.PoolGet(&pool)/PoolPut(&pool, x)
+//	once.Do(f) on sync.Once -> simhook.OnceDo(&once, f)
 //	net.Dial, net.DialTimeout, tls.Dial, (*net.Dialer).Dial, http.Get,
 //	filepath.Walk, os.ReadFile, os.Stat -> simhook shims that fall through when no simulation is live
 //	grpc.DialContext in package proxy -> zzGrpcDialContext (injected, tag verif)
@@ -413,6 +414,25 @@ func (in *instr) exprs(n ast.Node) ast.Node {
 						if nm, ptr, ok := namedIn(in.typeOf(sel.X), "sync", "Mutex", "RWMutex"); ok {
 							recv := in.exprs(sel.X).(ast.Expr)
 							c.Replace(hook(nm+sel.Sel.Name, addr(recv, ptr)))
+							in.used = true
+							return false
+						}
+					}
+				case "Do":
+					if len(x.Args) == 1 {
+						if _, ptr, ok := namedIn(in.typeOf(sel.X), "sync", "Once"); ok {
+							recv := in.exprs(sel.X).(ast.Expr)
+							// x.Fun is replaced below, so the FuncLit case above no longer sees the Once: same treatment here
+							var arg ast.Expr
+							if fl, isLit := x.Args[0].(*ast.FuncLit); isLit {
+								sub := &instr{p: in.p, fn: in.fn + ".once", noYield: true}
+								sub.block(fl.Body)
+								in.used = in.used || sub.used
+								arg = fl
+							} else {
+								arg = in.exprs(x.Args[0]).(ast.Expr)
+							}
+							c.Replace(hook("OnceDo", addr(recv, ptr), arg))
 							in.used = true
 							return false
 						}
